@@ -67,8 +67,49 @@ def builders_pure(ctx, rid, E=None):
                  "%s can return its operand itself (%s): in-place arithmetic on the result modifies the input" % (name, alias))
 
 
+def operand_discipline(ctx, rid_types, rid_tuple, fns=None):
+    """Operands of the sat builders are told apart only as model versus label, and the operand tuple is used as given
+    (also a premise of the constraint methods that build penalties with AND / OR / NOT ...)."""
+    P, R = ctx.prog, ctx.res
+    if fns is None:
+        fns = {b: P.func('_satisfiability.%s' % b) for b in BUILDERS}
+    for name, fn in fns.items():
+        bad = []
+        for n in ast.walk(fn.node):
+            if isinstance(n, ast.Call) and is_name(n.func, 'isinstance') and len(n.args) == 2:
+                cls_ = n.args[1]
+                names = [src(e) for e in (cls_.elts if isinstance(cls_, ast.Tuple) else [cls_])]
+                for c in names:
+                    base = c.split('.')[-1]
+                    if base == 'dict' or base in P.classes and R.is_model_class(base) or base in ('BOOLEAN_MODELS', 'SPIN_MODELS'):
+                        continue
+                    bad.append((n, c))
+            if isinstance(n, ast.Compare) and any(isinstance(c_, ast.Call) and is_name(c_.func, 'type') for c_ in [n.left] + n.comparators):
+                bad.append((n, src(n)))
+        ctx.inst(rid_types, fn, 'operand type tests in %s' % name, not bad,
+                 "only model-versus-label tests" if not bad else
+                 "`%s` treats operands of type %s specially: such a value is a legitimate variable label (any hashable), so the "
+                 "gate computes a different function for it" % (src(bad[0][0])[:60], bad[0][1]))
+    for name, fn in fns.items():
+        va = fn.node.args.vararg.arg if fn.node.args.vararg else None
+        if va is None:
+            continue
+        reb = [n for n in ast.walk(fn.node) if isinstance(n, (ast.Assign, ast.AugAssign, ast.AnnAssign)) and any(
+            isinstance(x, ast.Name) and x.id == va and isinstance(x.ctx, ast.Store)
+            for t in (n.targets if isinstance(n, ast.Assign) else [n.target]) for x in ast.walk(t))]
+        ctx.inst(rid_tuple, fn, reb[0] if reb else 'operands of %s' % name, not reb,
+                 "the operands are used as given" if not reb else
+                 "`%s` replaces the operand tuple: operands that are dropped (e.g. identically-zero models) or unpacked (a tuple "
+                 "is a legitimate label) change the gate - with no operand left the empty-gate constant is returned" % src(reb[0])[:60])
+
+
 def rules(ctx):
     P, R = ctx.prog, ctx.res
+    ctx.rule('R07.9', "no function writes module-level state (memo / registry): results independent of earlier calls", floor=1)
+    from .C14 import no_module_state as _nms
+    _nms(ctx, 'R07.9')
+    from .C14 import derived_fields as _df
+    _df(ctx, 'R07.9')      # ... nor keeps derived state on a model that some mutator forgets (stale memo)
     E = Effects(P, R)
     E.build()
     ctx.rule('R07.1', "builders neither mutate nor alias their operands", floor=16)
@@ -166,35 +207,8 @@ def rules(ctx):
     from . import C02
     C02.record_not_shared(ctx, 'R07.1')
     ctx.rule('R07.7', "operands are told apart only as model (dict) versus label: any hashable, tuples included, is a label", floor=8)
-    for name, fn in fns.items():
-        bad = []
-        for n in ast.walk(fn.node):
-            if isinstance(n, ast.Call) and is_name(n.func, 'isinstance') and len(n.args) == 2:
-                cls_ = n.args[1]
-                names = [src(e) for e in (cls_.elts if isinstance(cls_, ast.Tuple) else [cls_])]
-                for c in names:
-                    base = c.split('.')[-1]
-                    if base == 'dict' or base in P.classes and R.is_model_class(base) or base in ('BOOLEAN_MODELS', 'SPIN_MODELS'):
-                        continue
-                    bad.append((n, c))
-            if isinstance(n, ast.Compare) and any(isinstance(c_, ast.Call) and is_name(c_.func, 'type') for c_ in [n.left] + n.comparators):
-                bad.append((n, src(n)))
-        ctx.inst('R07.7', fn, 'operand type tests in %s' % name, not bad,
-                 "only model-versus-label tests" if not bad else
-                 "`%s` treats operands of type %s specially: such a value is a legitimate variable label (any hashable), so the "
-                 "gate computes a different function for it" % (src(bad[0][0])[:60], bad[0][1]))
     ctx.rule('R07.8', "every operand given takes part: the operand tuple is not replaced by a filtered / unpacked / reordered one", floor=6)
-    for name, fn in fns.items():
-        va = fn.node.args.vararg.arg if fn.node.args.vararg else None
-        if va is None:
-            continue
-        reb = [n for n in ast.walk(fn.node) if isinstance(n, (ast.Assign, ast.AugAssign, ast.AnnAssign)) and any(
-            isinstance(x, ast.Name) and x.id == va and isinstance(x.ctx, ast.Store)
-            for t in (n.targets if isinstance(n, ast.Assign) else [n.target]) for x in ast.walk(t))]
-        ctx.inst('R07.8', fn, reb[0] if reb else 'operands of %s' % name, not reb,
-                 "the operands are used as given" if not reb else
-                 "`%s` replaces the operand tuple: operands that are dropped (e.g. identically-zero models) or unpacked (a tuple "
-                 "is a legitimate label) change the gate - with no operand left the empty-gate constant is returned" % src(reb[0])[:60])
+    operand_discipline(ctx, 'R07.7', 'R07.8', fns)
     ctx.rule('R07.6', "no function reachable from a builder reads the display metadata `name` of an operand", floor=8)
     no_metadata_reads(ctx, 'R07.6', [(fn, None) for fn in fns.values()])
 
